@@ -12,7 +12,7 @@ from .engine import Unsupported
 from .ops import FullEngine
 from . import solve
 
-CONTRACT_MODULES = ["contracts.structure", "contracts.helpers", "contracts.builders", "contracts.traversal", "contracts.output", "contracts.singleton", "contracts.props"]
+CONTRACT_MODULES = ["contracts.structure", "contracts.helpers", "contracts.builders", "contracts.traversal", "contracts.output", "contracts.plantuml", "contracts.singleton", "contracts.props"]
 
 
 def load_contracts():
